@@ -354,10 +354,38 @@ func (s *Sched) spawn(parent *Thread, label string, f func()) *Thread {
 	return t
 }
 
+// nativeLive counts goroutines started by Go/GoLabel in pass-through mode that
+// have not returned yet.
+var nativeLive atomic.Int64
+
+func goNative(f func()) {
+	nativeLive.Add(1)
+	go func() {
+		defer nativeLive.Add(-1)
+		f()
+	}()
+}
+
+// WaitNative waits until every goroutine started in pass-through mode has
+// returned, or until their number has not changed for `quiet` (those left are
+// blocked for good). A process that alternates native and scheduled phases
+// (vsconf) calls it before installing a scheduler: a native goroutine that
+// reaches its first shim call after that would act as an unscheduled thread.
+func WaitNative(quiet time.Duration) {
+	last, since := nativeLive.Load(), time.Now()
+	for last != 0 && time.Since(since) < quiet {
+		time.Sleep(2 * time.Millisecond)
+		runtime.Gosched()
+		if n := nativeLive.Load(); n != last {
+			last, since = n, time.Now()
+		}
+	}
+}
+
 // Go starts f as a new scheduled thread.
 func Go(f func()) {
 	if current == nil {
-		go f()
+		goNative(f)
 		return
 	}
 	s := current
@@ -370,7 +398,7 @@ func Go(f func()) {
 // GoLabel is Go with a driver-supplied role label.
 func GoLabel(label string, f func()) *Thread {
 	if current == nil {
-		go f()
+		goNative(f)
 		return nil
 	}
 	s := current
